@@ -189,6 +189,21 @@ def check(prop, tier, seed, replay=None):
                                 found = shrink(eng, prop, harness, f)
                                 break
                     cov["search_cases"] = len(extra)
+                if not found and hasattr(eng, "build_plain_harness") and any(
+                        "fault" in str(f.detail) for f in [rep] + div_f[:20]):
+                    # the sanitizer stops the process at the first foreign access; what the program
+                    # as shipped (no sanitizer) goes on to do is judged too, on the diverging inputs
+                    ph, _plog = eng.build_plain_harness(wd, prop)
+                    if ph:
+                        pc = [rep.case] + [f.case for f in div_f[:20]]
+                        i3, m3, s3, _ = run_all(eng, prop, ph, pc)
+                        for f in evaluate(eng, prop, pc, i3, m3, s3):
+                            if f.kind == "judge":
+                                f.signature = eng.classify(prop, f)
+                                f.detail = "(harness built without sanitizers) " + str(f.detail)
+                                found = f
+                                break
+                        cov["plain_rerun_cases"] = len(pc)
                 if found:
                     violations.append((found, ""))
                 else:
